@@ -2,7 +2,7 @@
 from .flags import NORETURN
 
 
-def guards_of(f, target):
+def guards_of(f, target, expand=False):
     """list of (condition expression, outcome) for every conditional branch that dominates `target` and of which only
     one successor can reach `target` (without passing the branch again)"""
     res = []
@@ -16,7 +16,7 @@ def guards_of(f, target):
             if _reaches(f, s, tb, avoid=b):
                 outs.append(val)
         if len(outs) == 1:
-            res.append((normalise(f, t.ops[0], outs[0])))
+            res.append((normalise(f, t.ops[0], outs[0], expand)))
     return res
 
 
@@ -36,7 +36,7 @@ def _reaches(f, start, goal, avoid):
     return False
 
 
-def normalise(f, cond, outcome):
+def normalise(f, cond, outcome, expand=False):
     """(atom, polarity): `(x != 0)` true -> (x, True); `(x == 0)` true -> (x, False); other comparisons kept verbatim"""
     o = f.strip(cond)
     pol = outcome
@@ -54,9 +54,30 @@ def normalise(f, cond, outcome):
             o = f.strip(i.ops[0])
             continue
         break
-    return (f.expr(o), pol)
+    return ((f.xexpr(o) if expand else f.expr(o)), pol)
 
 
 def option_atoms(guards):
     """atoms that read a command-line option (state->opt.* / opt.*)"""
     return {(a, p) for a, p in guards if 'opt.' in a}
+
+
+import re as _re
+_STATE = _re.compile(r'^\(block_state_get\((.*)\)(==|!=)(\d+)\)$')
+
+
+def state_test(atom):
+    """(object expression, K, True if the atom reads `state == K`) for an (expanded) atom comparing a block state with a constant"""
+    m = _STATE.match(atom.replace(' ', ''))
+    if not m:
+        return None
+    return m.group(1), int(m.group(3)), m.group(2) == '=='
+
+
+def state_is(gs, k):
+    """do the (expanded) guards imply that the block state equals k?"""
+    for a, p in gs:
+        t = state_test(a)
+        if t and t[1] == k and t[2] == p:
+            return True
+    return False
